@@ -2713,11 +2713,25 @@ def _pick_inserted_ops_moment_indices(
     if frontier is None:
         frontier = defaultdict(lambda: 0)
     moment_indices = []
+    # The inserted operations also keep their order where they depend on each other through a
+    # measurement key: key -> first moment after its latest measurement / latest use as a control.
+    measured_until: dict[cirq.MeasurementKey, int] = {}
+    read_until: dict[cirq.MeasurementKey, int] = {}
     for op in operations:
         op_start = max(start, max((frontier[q] for q in op.qubits), default=0))
+        measured_keys = protocols.measurement_key_objs(op)
+        control_keys = protocols.control_keys(op)
+        for key in measured_keys | control_keys:
+            op_start = max(op_start, measured_until.get(key, 0))
+        for key in measured_keys:
+            op_start = max(op_start, read_until.get(key, 0))
         moment_indices.append(op_start)
         for q in op.qubits:
             frontier[q] = max(frontier[q], op_start + 1)
+        for key in measured_keys:
+            measured_until[key] = op_start + 1
+        for key in control_keys:
+            read_until[key] = max(read_until.get(key, 0), op_start + 1)
 
     return moment_indices, frontier
 
